@@ -951,18 +951,6 @@ pub broadcast proof fn lemma_step_skip_b(op: int, t1: SemType, t2: SemType, k: i
 {
     lemma_step_skip(op, t1, t2, k, all, s);
 }
-pub broadcast proof fn lemma_step_full_b(op: int, t1: SemType, t2: SemType, k: int, j: int, all: u32, all2: u32, s: PSeq)
-    requires
-        step_pre(op, t1, t2, k, all, s), j == k + 1,
-        all2 == all | item_code(the_merge(t1, t2, op_bits(op, t1, t2))[k]),
-        forall|v: Val| code_of(tag_of(v)) == item_code(the_merge(t1, t2, op_bits(op, t1, t2))[k]) ==>
-            #[trigger] pair_tgt(op, the_merge(t1, t2, op_bits(op, t1, t2))[k].0, the_merge(t1, t2, op_bits(op, t1, t2))[k].1, v),
-    ensures #![trigger loop_inv(op, t1, t2, k, all, s), loop_inv(op, t1, t2, j, all2, s)]
-        loop_inv(op, t1, t2, j, all2, s)
-{
-    lemma_step_full(op, t1, t2, k, all, s);
-}
-
 pub broadcast proof fn lemma_loop_final_b(op: int, t1: SemType, t2: SemType, n: int, all: u32, s: PSeq)
     requires wf(t1), wf(t2), 0 <= op <= 2, n == the_merge(t1, t2, op_bits(op, t1, t2)).len(),
         #[trigger] loop_inv(op, t1, t2, n, all, s),
@@ -970,17 +958,106 @@ pub broadcast proof fn lemma_loop_final_b(op: int, t1: SemType, t2: SemType, n: 
 {
     lemma_loop_final(op, t1, t2, all, s);
 }
-// no tag has proper data on both sides worth merging: the result is the bit-set alone
-pub proof fn lemma_early(op: int, t1: SemType, t2: SemType)
+// ---------------------------------------------------------------- robustness adapter: the loops are proved for
+// any bit expressions that agree, tag bit by tag bit, with the reference expressions op_bits / op_all.
+// (Requiring `some == op_bits(..)` made the proof depend on how the masks are spelled; dropping an
+// idempotent `& !all`, or commuting an `|`, is not a change of meaning.)
+pub open spec fn bits_equiv(x: u32, y: u32) -> bool {
+    forall|c: u32| #![trigger bit(x, c)] #![trigger bit(y, c)] is_code(c) ==> bit(x, c) == bit(y, c)
+}
+pub proof fn lemma_merge_equiv(d1: PSeq, d2: PSeq, i1: int, i2: int, x: u32, y: u32)
+    requires bits_equiv(x, y)
+    ensures merge_from(d1, d2, i1, i2, x) == merge_from(d1, d2, i1, i2, y)
+    decreases (if i1 < d1.len() { d1.len() - i1 } else { 0 }) + (if i2 < d2.len() { d2.len() - i2 } else { 0 })
+{
+    if i1 < 0 || i2 < 0 {
+    } else if i1 >= d1.len() {
+        if i2 >= d2.len() {
+        } else {
+            lemma_merge_equiv(d1, d2, i1, i2 + 1, x, y);
+            lemma_code_of_is_code(rtag(d2[i2]));
+            assert(bit(x, pcode(d2[i2])) == bit(y, pcode(d2[i2])));
+        }
+    } else if i2 >= d2.len() {
+        lemma_merge_equiv(d1, d2, i1 + 1, i2, x, y);
+        lemma_code_of_is_code(rtag(d1[i1]));
+        assert(bit(x, pcode(d1[i1])) == bit(y, pcode(d1[i1])));
+    } else {
+        let c1 = pcode(d1[i1]);
+        let c2 = pcode(d2[i2]);
+        lemma_code_of_is_code(rtag(d1[i1]));
+        lemma_code_of_is_code(rtag(d2[i2]));
+        assert(bit(x, c1) == bit(y, c1));
+        assert(bit(x, c2) == bit(y, c2));
+        if c1 == c2 { lemma_merge_equiv(d1, d2, i1 + 1, i2 + 1, x, y); }
+        else if c1 < c2 { lemma_merge_equiv(d1, d2, i1 + 1, i2, x, y); }
+        else { lemma_merge_equiv(d1, d2, i1, i2 + 1, x, y); }
+    }
+}
+pub broadcast proof fn lemma_the_merge_equiv_b(t1: SemType, t2: SemType, x: u32, y: u32)
+    requires #[trigger] bits_equiv(x, y)
+    ensures #[trigger] the_merge(t1, t2, x) == the_merge(t1, t2, y)
+{
+    lemma_merge_equiv(t1.subtype_data@, t2.subtype_data@, 0, 0, x, y);
+}
+// the invariant only looks at the tag bits of `all`
+pub proof fn lemma_loop_inv_equiv(op: int, t1: SemType, t2: SemType, k: int, a: u32, a2: u32, s: PSeq)
+    requires loop_inv(op, t1, t2, k, a, s), bits_equiv(a, a2), all_in_val(a2)
+    ensures loop_inv(op, t1, t2, k, a2, s)
+{
+    let m = the_merge(t1, t2, op_bits(op, t1, t2));
+    assert forall|i: int| 0 <= i < s.len() implies !bit(a2, pcode(#[trigger] s[i])) && nontrivial_p(*s[i]) by {
+        lemma_code_of_is_code(rtag(s[i]));
+        assert(bit(a, pcode(s[i])) == bit(a2, pcode(s[i])));
+    }
+    assert forall|c: u32| is_code(c) && !processed(m, k, c) implies #[trigger] bit(a2, c) == bit(op_all(op, t1, t2), c) by {
+        assert(bit(a, c) == bit(a2, c));
+    }
+    assert forall|v: Val| processed(m, k, code_of(tag_of(v))) implies #[trigger] memb(a2, s, v) == tgt(op, t1, t2, v) by {
+        lemma_code_of_is_code(tag_of(v));
+        assert(bit(a, code_of(tag_of(v))) == bit(a2, code_of(tag_of(v))));
+        assert(memb(a, s, v) == tgt(op, t1, t2, v));
+    }
+}
+pub broadcast proof fn lemma_loop_init_b(op: int, t1: SemType, t2: SemType, a: u32)
+    requires wf(t1), wf(t2), 0 <= op <= 2, bits_equiv(op_all(op, t1, t2), a), all_in_val(a)
+    ensures #[trigger] loop_inv(op, t1, t2, 0, a, Seq::empty())
+{
+    lemma_loop_init(op, t1, t2);
+    lemma_loop_inv_equiv(op, t1, t2, 0, op_all(op, t1, t2), a, Seq::empty());
+}
+// "a whole tag became full"
+pub broadcast proof fn lemma_step_full_b(op: int, t1: SemType, t2: SemType, k: int, j: int, all: u32, all2: u32, s: PSeq)
+    requires
+        step_pre(op, t1, t2, k, all, s), j == k + 1,
+        all2 == all | item_code(the_merge(t1, t2, op_bits(op, t1, t2))[k]) || all2 == item_code(the_merge(t1, t2, op_bits(op, t1, t2))[k]) | all,
+        forall|v: Val| code_of(tag_of(v)) == item_code(the_merge(t1, t2, op_bits(op, t1, t2))[k]) ==>
+            #[trigger] pair_tgt(op, the_merge(t1, t2, op_bits(op, t1, t2))[k].0, the_merge(t1, t2, op_bits(op, t1, t2))[k].1, v),
+    ensures #![trigger loop_inv(op, t1, t2, k, all, s), loop_inv(op, t1, t2, j, all2, s)]
+        loop_inv(op, t1, t2, j, all2, s)
+{
+    let ck = item_code(the_merge(t1, t2, op_bits(op, t1, t2))[k]);
+    assert((all | ck) == (ck | all)) by (bit_vector);
+    lemma_step_full(op, t1, t2, k, all, s);
+}
+// early exit, for any spelling of the two bit-sets
+pub proof fn lemma_early_eq(op: int, t1: SemType, t2: SemType)
     requires wf(t1), wf(t2), 0 <= op <= 2
-    ensures op_bits(op, t1, t2) == 0 ==> (forall|v: Val| #[trigger] memb(op_all(op, t1, t2), Seq::empty(), v) == tgt(op, t1, t2, v)),
-        all_in_val(op_all(op, t1, t2))
+    ensures forall|some: u32, all: u32| #![trigger bits_equiv(some, op_bits(op, t1, t2)), bits_equiv(op_all(op, t1, t2), all)]
+        bits_equiv(some, op_bits(op, t1, t2)) && bits_equiv(op_all(op, t1, t2), all) && some == 0
+            ==> (forall|v: Val| #[trigger] memb(all, Seq::empty(), v) == tgt(op, t1, t2, v))
 {
     lemma_op_facts(op, t1, t2);
-    if op_bits(op, t1, t2) == 0 {
-        assert forall|v: Val| #[trigger] memb(op_all(op, t1, t2), Seq::empty(), v) == tgt(op, t1, t2, v) by {
+    assert forall|some: u32, all: u32| #![trigger bits_equiv(some, op_bits(op, t1, t2)), bits_equiv(op_all(op, t1, t2), all)]
+        bits_equiv(some, op_bits(op, t1, t2)) && bits_equiv(op_all(op, t1, t2), all) && some == 0
+            implies (forall|v: Val| #[trigger] memb(all, Seq::empty(), v) == tgt(op, t1, t2, v)) by {
+        assert forall|v: Val| #[trigger] memb(all, Seq::empty(), v) == tgt(op, t1, t2, v) by {
+            let c = code_of(tag_of(v));
             lemma_op_fact_at(op, t1, t2, v);
-            lemma_bit_zero(code_of(tag_of(v)));
+            lemma_bit_zero(c);
+            lemma_code_of_is_code(tag_of(v));
+            assert(bit(some, c) == bit(op_bits(op, t1, t2), c));
+            assert(bit(op_all(op, t1, t2), c) == bit(all, c));
         }
     }
 }
